@@ -14,7 +14,7 @@ IMPORTS = "Factory.Model Factory.Scenario Factory.Oracle"
 def scn_line(s):
     h = ",".join(f"{k}:{v}" for k, v in sorted(s.get("hash", {}).items())) or "-"
     rl = s.get("rl") or "-"
-    head = f"{s['router']} {s['queue']} {s['n']} {s['disc']} {h} {rl}"
+    head = f"{s['router']} {s['queue']} {s['n']} {s['disc']} {h} {rl}" + (f" dms:{s['dms']}" if s.get("dms") else "")
     return head + " ; " + " ; ".join(" ".join(str(x) for x in op) for op in s["ops"])
 
 
@@ -28,9 +28,12 @@ def parse_scn_line(line):
             h[int(k)] = int(v)
     ops = []
     for p in parts[1:]:
-        ops.append([p[0]] + [x if x == "-" or ":" in x or x == "none" else int(x) for x in p[1:]])
-    return {"router": c[0], "queue": c[1], "n": int(c[2]), "disc": c[3], "hash": h,
-            "rl": "" if c[5] == "-" else c[5], "ops": ops}
+        ops.append([p[0]] + [int(x) if x.lstrip("-").isdigit() else x for x in p[1:]])
+    out = {"router": c[0], "queue": c[1], "n": int(c[2]), "disc": c[3], "hash": h,
+           "rl": "" if c[5] == "-" else c[5], "ops": ops}
+    if len(c) > 6 and c[6].startswith("dms:"):
+        out["dms"] = int(c[6][4:])
+    return out
 
 
 def disc_term(d):
@@ -51,7 +54,7 @@ def op_term(op):
         "hold": lambda: "OHold", "rel": lambda: f"ORelease {op[1]}", "drain": lambda: "ODrain",
         "stop": lambda: "OStop", "q": lambda: "OQuery", "sd": lambda: f"OSetDisc {disc_term(op[1])}",
         "sw": lambda: f"OSetCount {op[1]}", "xs": lambda: f"OXStop {op[1]}", "xr": lambda: f"OXRelease {op[1]}",
-        "sh": lambda: "OSetHandler",
+        "sh": lambda: "OSetHandler", "ud": lambda: "OSetHandler",
     }[k]()
 
 
@@ -405,6 +408,50 @@ def gen_window_scenario(rng):
             ops.append(["g", w])
     ops.append(["q"])
     return {"router": router, "queue": rng.choice(["d", "d", "p"]), "n": n, "disc": disc, "hash": h, "rl": "", "ops": ops[:80]}
+
+
+def gen_long_scenario(rng):
+    """long-running factories: the clock passes the 10 s ping period several times (DoPings -> FactoryPing ->
+    WorkerPong), a dead man's switch in detection-only mode watches the workers, and UpdateSettings replaces the
+    dead man's switch / capacity controller / lifecycle hooks / stats layer at runtime. None of this may touch a job.
+    No `drain` here: is_drained is re-evaluated after every ping/pong message, which the model does not carry."""
+    s = gen_scenario(rng, style=rng.choice(["plain", "faulty", "resize", "ttl", "shed", "rate"]))
+    ops = [op for op in s["ops"] if op[0] not in ("drain", "t", "hold", "rel")]
+    out, clock = [], 0
+    for op in ops:
+        out.append(op)
+        r = rng.random()
+        if r < 0.18 and clock < 34:
+            dt = rng.choice([3, 4, 6, 11])
+            clock += dt
+            out.append(["t", dt])
+        elif r < 0.26:
+            out.append(["ud", rng.choice(["dms:3", "dms:7", "dms:off", "ctl", "hooks", "hooksoff", "stats", "statsoff"])])
+    s["ops"] = out[:80]
+    if rng.random() < 0.6:
+        s["dms"] = rng.choice([3, 7])
+    return s
+
+
+def gen_empty_pool_scenario(rng):
+    """worker-queueing routers started with an empty pool: everything backlogs into the factory queue (also with
+    ttl, load shedding, priorities), then the pool grows (once or twice), shrinks below existing slots and grows again"""
+    s = gen_scenario(rng, router=rng.choice(["kp", "rr", "cu", "kp"]), style=rng.choice(["ttl", "shed", "plain"]))
+    s["n"] = 0
+    head = []
+    jid = 2000
+    for _ in range(rng.choice([2, 3, 5])):
+        jid += 1
+        head.append(["d", jid, rng.randrange(0, 12), rng.choice(["-", "-", 0, 1, 2]), rng.choice([0, 1])])
+        if rng.random() < 0.3:
+            head.append(["t", 1])
+    head.append([rng.choice(["r", "sw"]), rng.choice([1, 2, 3])])
+    head.append(["r", rng.choice([1, 2, 4])])
+    head.append(["r", 1])
+    head.append(["r", rng.choice([2, 3])])
+    body = [op for op in s["ops"] if not (op[0] == "t")]
+    s["ops"] = (head + body)[:80]
+    return s
 
 
 def gen_settings_scenario(rng):
